@@ -42,8 +42,9 @@ def history(rng, fractional=True):
         pa = "at" if ka == "B" else rng.choice(["start", "end"])
         pb = "at" if kb == "B" else rng.choice(["start", "end"])
         off = F(rng.choice([0, 0, 1, 1, 2]), rng.choice([1, 1, 2]) if fractional else 1)
-        lines.append(f"{b}.{pb} >= {a}.{pa}" + (f" + {num_text(off)}" if off else "") + ";")
-        cons.append(("ge", (b, pb), (a, pa), off))
+        strict = rng.random() < 0.35        # strict orderings put epsilons into the planned times
+        lines.append(f"{b}.{pb} {'>' if strict else '>='} {a}.{pa}" + (f" + {num_text(off)}" if off else "") + ";")
+        cons.append(("gt" if strict else "ge", (b, pb), (a, pa), off))
     text = "\n".join(lines) + "\n"
     # the script
     upt = rng.choice([F(1), F(1), F(1), F(2), F(1, 2)]) if fractional else F(1)
